@@ -7,14 +7,14 @@
 EXTENDS TraceBatch, FiniteSets
 
 CONSTANTS MaxId, EndT, WarmT, Prios, RelDelays, AbsTimes, BadKinds, MaxOps, Strategy,
-          Bounds, MaxInits, AllowFaults, MaxCmds, Cmds
+          Bounds, MaxInits, AllowFaults, StratOps, MaxCmds, Cmds
 VARIABLES rs, rep, clock, ev, pending, bound, incl, mode, seg, executed, prog, initOps,
-          ann, due, notif, nrep, premature, ncmd, op,
+          ann, due, notif, nrep, premature, ncmd, strat, op,
           statmemo    \* digest of the final statistics of the first complete replication
 D == INSTANCE DEVS
 
 dvars == <<rs, rep, clock, ev, pending, bound, incl, mode, seg, executed, prog, initOps,
-           ann, due, notif, nrep, premature, ncmd, op>>
+           ann, due, notif, nrep, premature, ncmd, strat, op>>
 
 SeqOf(js) == [i \in 1..Len(js) |-> js[i]]
 OpsOf(js) == [i \in 1..Len(js) |-> [k |-> js[i].k, a |-> js[i].a, p |-> js[i].p]]
